@@ -48,6 +48,41 @@ Theorem C06_unordered_independent : forall (n : nat) (o o' : copts) (vc vc' : Z 
 Proof. exact unordered_independent. Qed.
 Print Assumptions C06_unordered_independent.
 
+(** no spurious failure (any value type / aggregation; dtype check switched off): at least one chunk, each
+    acceptable to the validator under the options in force and sorted by bin1_id (or ensure_sorted), any
+    mergebuf >= 0, single pass or any admissible edge list => the ingestion returns a result.  Covers the
+    repaired defects D9 (IndexError with 2-3 chunks) and D16 (empty merge epoch). *)
+Theorem C06_unordered_total : forall (V : Type) (n : nat) (o : copts) (agg : list V -> V)
+    (chunks : list (list (key * V))) (buf : Z) (edges : option (list nat)),
+  (1 <= n)%nat -> 0 <= buf -> chunks <> [] ->
+  Forall (fun ch => Forall (fun p => KeyOK n o (fst p)) ch /\ (o_dup o = true -> has_dup ch = false) /\
+                    (o_sort o = true \/ RowSorted ch) /\ Forall (fun p => 0 <= rowof p < Z.of_nat n) ch) chunks ->
+  match edges with Some e => Admissible (length chunks) e | None => True end ->
+  exists m, unordered_g n o (fun _ => true) agg chunks buf edges = Ok m.
+Proof. intros V. exact (@unordered_total V). Qed.
+Print Assumptions C06_unordered_total.
+
+(** total form for counts: the ingestion succeeds AND stores the in-memory aggregate with its index *)
+Theorem C06_unordered_correct : forall (n : nat) (o : copts) (chunks : list (list pixel)) (buf : Z) (edges : option (list nat)),
+  (1 <= n)%nat -> 0 <= buf -> chunks <> [] ->
+  Forall (fun ch => Forall (fun p => KeyOK n o (fst p)) ch /\ (o_dup o = true -> has_dup ch = false) /\
+                    (o_sort o = true \/ RowSorted ch) /\ Forall (fun p => 0 <= rowof p < Z.of_nat n) ch) chunks ->
+  match edges with Some e => Admissible (length chunks) e | None => True end ->
+  unordered_g n o (fun _ => true) sumZ chunks buf edges = Ok (mk_cool n (aggregate (concat chunks))).
+Proof. exact unordered_correct. Qed.
+Print Assumptions C06_unordered_correct.
+
+(** the same for the EXECUTABLE model that the correspondence run evaluates (all requested integer columns,
+    sums accumulated in int64, dtype range checks, all validation options, the computed edge list) *)
+Theorem C06_create_from_unordered_exact : forall names bins symm cols bc tc dc es chunks buf mm c,
+  (1 <= length bins)%nat -> 0 <= buf -> chunks <> [] ->
+  Forall (fun ch => (es = true \/ RowSorted ch) /\ Forall (fun p => 0 <= rowof p < Z.of_nat (length bins)) ch) chunks ->
+  create_from_unordered names bins symm cols bc tc dc es chunks buf mm = Ok c ->
+  c_px c = groupby_agg (agg_row (sum_ops cols)) (concat chunks) /\
+  c_off c = index_of (length bins) (c_px c) /\ c_bins c = bins /\ c_symm c = symm /\ c_cols c = cols.
+Proof. exact create_from_unordered_exact. Qed.
+Print Assumptions C06_create_from_unordered_exact.
+
 (** the edge list create_from_unordered computes (after the repair of D9) is admissible for every number
     of chunks n >= 1, so the theorems above apply to it *)
 Theorem C06_two_pass_edges_ok : forall (n : nat) (max_merge : Z), (1 <= n)%nat ->
